@@ -1,4 +1,5 @@
 """C08 - deal lifecycle: unique publication, one timely activation by the provider."""
+import re
 from core import *
 from rules import *
 import sends as sendsmod
@@ -178,6 +179,20 @@ def run(prog, rep, tier, cfg):
             X.value_from('K10', '%s:not-slashed' % key, g, X.agg_field_atoms(g, 'DealState', 'slash_epoch', narrow=False), ['K:EPOCH_UNDEFINED'], 'fresh deal state')
             pds = [q for q in g.calls if callee_is(ST + 'put_deal_states')(q)]
             rep.need('K7', '%s:states-stored' % key, len(pds) == 1 and result_fate(g, pds[0]) == 'try' and not g.ok_returns_from([0], blocked={pds[0].bb}), 'activated deal states are stored on success', X.loc(g))
+            if key == 'batch_activate_deals':
+                # within one sector a deal id may appear once: the adjacent-pairs test must run over a *sorted* copy of the ids
+                # (the `activated_deals` set is only filled after the whole sector validated, so it cannot see in-sector repeats)
+                win = [q for q in g.calls if (q.callee or '').endswith('[T]>::windows') or (q.callee or '').endswith('::windows')]
+                srt = [q for q in g.calls if re.search(r'::sort(_unstable)?(_by(_key)?)?$', q.callee or '')]
+                ok = False
+                for w in win:
+                    base = _base_local(g, w.args[0])
+                    for q in srt:
+                        if _base_local(g, q.args[0]) == base and base is not None and g.dominates(q.bb, w.bb):
+                            ok = True
+                alt = [q for q in g.calls if (q.callee or '').endswith('HashSet::<T, S, A>::insert')]
+                rep.need('K6b', '%s:in-sector-duplicates-sorted' % key, ok or (not win and len(alt) >= 2),
+                         'the in-sector duplicate test (adjacent pairs) must run over ids that were sorted first; windows sites %s, sort sites %s' % ([q.where for q in win], [q.where for q in srt]), X.loc(g))
             ai = [q for q in g.calls if (q.callee or '').endswith('HashSet::<T, S, A>::insert')]
             rep.need('K7', '%s:activated-remembered' % key, len(ai) == 1, 'activated ids are remembered for the repeat test', X.loc(g))
     # ---- timeouts
@@ -227,6 +242,31 @@ def run(prog, rep, tier, cfg):
                 if (c.defp or '').endswith('AddAssign::add_assign') and has_all(prog.narrow.operand(g, c.args[1]), src):
                     okacc = True
         rep.need('K10', 'slash-burnt:%s:accumulated' % key, okacc, 'slashed amounts are summed with +=', X.loc(H))
+
+
+def _base_local(g, op, depth=0):
+    """the user local an operand borrows / derefs (follows `&mut v`, `&*v`, Deref::deref(&v), moves)"""
+    if depth > 8 or op[0] not in ('c', 'm'):
+        return None
+    l = op[1][0]
+    ds = [d for d in g.defs.get(l, []) if d[0] in ('=', 'call')]
+    named = {n[1][0] for n in g.names if not n[1][1]} if hasattr(g, 'names') else set()
+    if l in named or len(ds) != 1:
+        return l
+    d = ds[0]
+    if d[0] == '=':
+        rv = d[4]
+        if rv[0] in ('ref', 'rawptr'):
+            return _base_local(g, ['c', [rv[2][0], []]], depth + 1)
+        if rv[0] == 'use' and rv[1][0] in ('c', 'm'):
+            return _base_local(g, ['c', [rv[1][1][0], []]], depth + 1)
+        if rv[0] == 'cast' and rv[2][0] in ('c', 'm'):
+            return _base_local(g, ['c', [rv[2][1][0], []]], depth + 1)
+        return l
+    c = d[2]
+    if (c.defp or '').startswith('core::ops::deref::Deref') or (c.callee or '').endswith('::as_slice') or (c.callee or '').endswith('::as_mut_slice') or (c.defp or '').endswith('::deref_mut'):
+        return _base_local(g, c.args[0], depth + 1)
+    return l
 
 
 def publish_gates(prog, rep, X, prefix=''):
